@@ -11,7 +11,9 @@ EXPLANATION = ("The REAL Compiler runs under CrossHair on a scenario (plain and 
 
 
 def bounds(tier):
-    return "5^5 keyword-type sequences x plain/outline, background 2 + scenario 3 steps, and background 0 + 3; feature level and inside a rule"
+    return ("5^5 keyword-type sequences x plain/outline, background 2 + scenario 3 steps, and background 0 + 3; feature level and inside a rule; "
+            "matcher side: step keywords of en/fr (thorough: all dialects) fresh, after a header and on reused matchers, plus every dialect pair "
+            "that types one keyword string differently (computed from gherkin-languages.json) on a reused matcher")
 
 
 def solver_part(tier):
@@ -34,6 +36,13 @@ def conditions(tier):
             (() if tier == "quick" else (("ht", "en", "default"), ("ka", "en", "default"), ("sk", "en", "history2"))):
         cs.append(Cond("harness.kw", "keyword_in_role", {"dialect": d, "mode": mode, "other": o, "maxlen": 0, "steps_only": True}, T=900, reach=["in-role"],
                        label="kw.step_keyword_types[%s,%s]" % (d, mode)))
+    # reused matcher whose earlier document used a dialect that gives the SAME keyword string ANOTHER type ('Dan ' nl/af vs id/bm, ...):
+    # every such (keyword, dialect) is covered by one pair, pairs computed from the language table of the tree under check
+    from . import _kwpairs
+    for d, o in _kwpairs.colliding_pairs():
+        for mode in (("history",) if tier == "quick" else ("history", "history2", "header")):
+            cs.append(Cond("harness.kw", "keyword_in_role", {"dialect": d, "mode": mode, "other": o, "maxlen": 0, "steps_only": True}, T=900, reach=["in-role"],
+                           label="kw.step_keyword_types[%s after %s,%s]" % (d, o, mode)))
     if tier != "quick":
         import json, os
         from kit import runner
